@@ -138,7 +138,9 @@ func checkC17(c *Ctx) {
 	}
 	ruleGFMSet(c)
 	ruleFRAutomaton(c)
-	c.Assume("FR-AUTOMATON decides only that skip states end no later than the tokenizer's construct; full agreement of filterRaw's tag-name scanning with the WHATWG tokenizer (e.g. `<3 <script>`) is not decided")
+	ruleFRTagSkip(c)
+	ruleTagNameSet(c)
+	c.Assume("FR-AUTOMATON, FR-TAGSKIP and TAGNAME-SET decide that the scanner never skips further than an HTML tokenizer would and never measures a longer tag name; equality of the two languages (e.g. names with characters outside letters, digits and hyphen) is not decided")
 }
 
 // allCallSitesFiltered: every static call of fn lies behind a FilterTag != nil edge in its caller.
@@ -292,6 +294,23 @@ func ruleGFMSet(c *Ctx) {
 
 func init() {
 	addControls(
+		Control{Name: "tag-jump-without-open-test", Props: []string{"C17"}, File: "html_renderer.go",
+			Old: "\t\t\t\t\tif tagNameStart >= len(rawHTML) || !opensHTMLMarkup(rawHTML[tagNameStart]) {", New: "\t\t\t\t\tif tagNameStart >= len(rawHTML) {", Expect: "FR-TAGSKIP/filterRaw:jump#1:open",
+			Why: "`<3 <script>`: a '<' that opens no markup must not start a jump to the next '>'"},
+		Control{Name: "tag-open-set-includes-digits", Props: []string{"C17"}, File: "html_renderer.go",
+			Old: "\treturn isASCIILetter(c) || c == '/' || c == '!' || c == '?'", New: "\treturn isASCIILetter(c) || isASCIIDigit(c) || c == '/' || c == '!' || c == '?'", Expect: "FR-TAGSKIP/filterRaw:jump#1:open"},
+		Control{Name: "tag-end-at-last-gt", Props: []string{"C17"}, File: "html_renderer.go",
+			Old: "if j := bytes.IndexByte(rawHTML[tagNameStart:], '>'); j >= 0 {", New: "if j := bytes.LastIndexByte(rawHTML[tagNameStart:], '>'); j >= 0 {", Expect: "FR-TAGSKIP/filterRaw:jump#1:end"},
+		Control{Name: "tag-name-runs-over-form-feed", Props: []string{"C17"}, File: "parse_html.go",
+			Old: "\t\tif !isASCIILetter(b[i]) && !isASCIIDigit(b[i]) && b[i] != '-' {\n\t\t\treturn i\n\t\t}\n\t}\n\treturn len(b)\n}\n\nfunc parseHTMLAttribute", New: "\t\tif isSpaceTabOrLineEnding(b[i]) || b[i] == '/' || b[i] == '>' {\n\t\t\treturn i\n\t\t}\n\t}\n\treturn len(b)\n}\n\nfunc parseHTMLAttribute", Expect: "TAGNAME-SET/htmlTagNameEnd"},
+		Control{Name: "neg-tag-end-search-in-helper", Props: []string{"C17", "C04"}, File: "html_renderer.go", Negative: true,
+			Old: "\t\t\t\t\ttagEnd := len(rawHTML)\n\t\t\t\t\tif j := bytes.IndexByte(rawHTML[tagNameStart:], '>'); j >= 0 {\n\t\t\t\t\t\ttagEnd = tagNameStart + j + len(\">\")\n\t\t\t\t\t}\n",
+			New: "\t\t\t\t\ttagEnd := tagNameStart + rawTagLen(rawHTML[tagNameStart:])\n",
+			Edits: [][2]string{{"func appendAltText(", "func rawTagLen(b []byte) int {\n\tif j := bytes.IndexByte(b, '>'); j >= 0 {\n\t\treturn j + 1\n\t}\n\treturn len(b)\n}\n\nfunc appendAltText("}}},
+		Control{Name: "neg-tag-open-test-as-switch", Props: []string{"C17", "C04"}, File: "html_renderer.go", Negative: true,
+			Old: "\treturn isASCIILetter(c) || c == '/' || c == '!' || c == '?'", New: "\tswitch {\n\tcase 'a' <= c && c <= 'z', 'A' <= c && c <= 'Z':\n\t\treturn true\n\tcase c == '/', c == '!', c == '?':\n\t\treturn true\n\t}\n\treturn false"},
+		Control{Name: "neg-tag-name-end-tokenizer-style", Props: []string{"C17"}, File: "parse_html.go", Negative: true,
+			Old: "\t\tif !isASCIILetter(b[i]) && !isASCIIDigit(b[i]) && b[i] != '-' {\n\t\t\treturn i\n\t\t}\n\t}\n\treturn len(b)\n}\n\nfunc parseHTMLAttribute", New: "\t\tswitch c := b[i]; {\n\t\tcase isASCIILetter(c), isASCIIDigit(c), c == '-':\n\t\tdefault:\n\t\t\treturn i\n\t\t}\n\t}\n\treturn len(b)\n}\n\nfunc parseHTMLAttribute"},
 		Control{Name: "GFM-forgets-noembed", Props: []string{"C17"}, File: "html_renderer.go",
 			Old: "\t\ttagAtom == atom.Noembed ||\n", New: "", Expect: "GFMSET/FilterTagGFM:noembed"},
 		Control{Name: "br-emitted-as-constant", Props: []string{"C17"}, File: "html_renderer.go",
